@@ -411,8 +411,9 @@ def load_known(prop):
 
 # ---------------------------------------------------------------- a check run
 class Run:
-    def __init__(self, prop, tier, seed):
+    def __init__(self, prop, tier, seed, rerun=False):
         self.prop, self.tier, self.seed = prop, tier, seed
+        self.rerun = rerun            # a re-run for `vp.py replay`: separate replay directory, no evidence file
         self.t0 = time.time()
         self.work = os.path.join(WORK, prop)
         os.makedirs(self.work, exist_ok=True)
@@ -459,7 +460,7 @@ class Run:
 
     # --- verdicts
     def replay_path(self, name):
-        d = os.path.join(self.work, "replay")
+        d = os.path.join(self.work, "replay-rerun" if self.rerun else "replay")
         os.makedirs(d, exist_ok=True)
         return os.path.join(d, name + ".json")
 
@@ -472,13 +473,19 @@ class Run:
     def known(self, text):
         self.known_lines.append(text)
 
+    def start_clean(self):
+        """stale replay files of an earlier run must not be mistaken for results of this one"""
+        d = os.path.join(self.work, "replay-rerun" if self.rerun else "replay")
+        shutil.rmtree(d, ignore_errors=True)
+
     def finish(self, level="proof"):
         cov = self.coverage
         ev = {"property_id": self.prop, "tier": self.tier, "seed": self.seed, "level": level,
               "coverage": cov, "assumptions": self.assumptions, "wall_s": round(time.time() - self.t0, 1),
               "violations": len(self.violations), "notes": self.notes}
-        os.makedirs(os.path.join(VERIF, "evidence"), exist_ok=True)
-        json.dump(ev, open(os.path.join(VERIF, "evidence", self.prop + ".json"), "w"), indent=1, default=str)
+        if not self.rerun:
+            os.makedirs(os.path.join(VERIF, "evidence"), exist_ok=True)
+            json.dump(ev, open(os.path.join(VERIF, "evidence", self.prop + ".json"), "w"), indent=1, default=str)
         for k in self.known_lines:
             print("KNOWN-FINDING: property=%s %s" % (self.prop, k))
         seen = set()
